@@ -319,6 +319,10 @@ class HttpParser(abc.ABC, Generic[_MsgT]):
             self._payload_parser.feed_eof()
             if self._payload_parser.done:
                 self._payload_parser = None
+            else:
+                # The body is complete but the reader is full: the payload parser
+                # returned early and finishes through feed_data(b"") on resume.
+                self._payload_has_more_data = True
         else:
             # try to extract partial message
             if self._tail:
